@@ -95,3 +95,14 @@ Theorem C09_lfda_source : C09_lfda_source_stmt.
 Proof. exact lfda_G_pairwise. Qed.
 Print Assumptions C09_lfda_source.
 Definition C09_lfda_skeleton := lfda_skeleton_ok.
+
+(* non-vacuity of C09_lfda_source: a class of two points in the plane and a symmetric affinity *)
+Example C09_lfda_source_nonvacuous :
+  let Xc : Rm := [[0; 0]; [1; 2]] in let A : Rm := [[1; / 2]; [/ 2; 1]] in
+  Xc <> [] /\ length Xc = 2%nat /\ Forall (wfvR 2) Xc /\ wfmR 2 2 A /\ symop 2 A.
+Proof.
+  cbv zeta. split; [discriminate|]. split; [reflexivity|]. split; [repeat constructor|]. split; [split; [reflexivity | repeat constructor]|].
+  intros x y Hx Hy. unfold wfv in *.
+  destruct x as [|x1 [|x2 [|? ?]]]; try discriminate. destruct y as [|y1 [|y2 [|? ?]]]; try discriminate.
+  cbn. ring.
+Qed.
